@@ -272,6 +272,12 @@ def plan(tier):
         for pl in pls[::8]:
             for wd in ('w_only', 'd_only'):
                 law_cells.append([t, pl, 'Mach', wd])
+    # a point listed twice (same Mach, same BC - a banded BC copied from two sources): harmless, the law is the one of the distinct points
+    for t in ('G7', 'G1'):
+        for base in ([[0.3, 1.0], [0.32, 2.0], [0.35, 3.0]], [[0.2, 0.5], [0.25, 1.0], [0.3, 2.0], [0.28, 3.0]]):
+            for dup in base:
+                for perm in sorted(set(itertools.permutations([tuple(x) for x in base + [dup]])))[::3]:
+                    law_cells.append([t, [list(x) for x in perm], 'Mach', False])
     # points faster than the table's last entry (Mach 5 for most tables, 4 for GS / RA4) still shape the interpolation below them
     for t in TABLES:
         for pl in OUTSIDE:
